@@ -1,0 +1,62 @@
+// apparmor.d - Full set of apparmor profiles
+// SPDX-License-Identifier: GPL-2.0-only
+
+//go:build verif
+
+// Machine-checked contracts for package directive (comment-only; only part of the
+// package under the build tag "verif").
+package directive
+
+// Clean, cleanKeyword and IsInline are used as deterministic functions of the option and
+// the text (regexp/strings rewriting, not verified here).
+//@ func (*Option).Clean
+//@   opt prop=C03
+//@   pure
+//@   trusted
+
+//@ func (*Option).IsInline
+//@   opt prop=C03
+//@   pure
+//@   trusted
+
+// A filter applies to the build target exactly when it names the target ABI, the target
+// AppArmor version, the target distribution or the target package family.
+//@ func filterRuleForUs
+//@   opt prop=C03
+//@   requires opt != nil
+//@   pure
+//@   ensures result == (mem(opt.ArgList, sprintf("abi%d", prebuild.ABI)) || mem(opt.ArgList, sprintf("apparmor%.1f", prebuild.Version)) || mem(opt.ArgList, prebuild.Distribution) || mem(opt.ArgList, prebuild.Family))
+
+// only keeps the guarded text (marker removed) exactly when a filter applies; exclude
+// exactly when none does; otherwise the guarded rule or paragraph is removed.
+//@ func filter
+//@   opt prop=C03
+//@   requires opt != nil
+//@   pure
+//@   ensures second(result) == nil
+//@   ensures imp(only == filterRuleForUs(opt), first(result) == Option.Clean(opt, profile))
+//@   ensures imp(only != filterRuleForUs(opt) && Option.IsInline(opt), first(result) == ext("strings.ReplaceAll", profile, opt.Raw, ""))
+//@   ensures imp(only != filterRuleForUs(opt) && !Option.IsInline(opt), first(result) == ext("(*regexp.Regexp).ReplaceAllString", ext("regexp.MustCompile", concat(concat("(?s)", opt.Raw), "\\n.*?\\n\\n")), profile, ""))
+
+//@ func (FilterOnly).Apply
+//@   opt prop=C03
+//@   requires opt != nil
+//@   assigns nothing
+//@   ensures first(result) == first(filter(true, opt, profile)) && second(result) == nil
+
+//@ func (FilterExclude).Apply
+//@   opt prop=C03
+//@   requires opt != nil
+//@   assigns nothing
+//@   ensures first(result) == first(filter(false, opt, profile)) && second(result) == nil
+
+// NewOption: the filter list is the list of blank-separated words after the directive name
+// (so the empty string is never a filter and an unknown family cannot match by accident).
+//@ func NewOption
+//@   opt prop=C03
+//@   assigns nothing
+//@   freshresult
+//@   panics_when len(match) != 3
+//@   loop 1 invariant true
+//@   ensures result.ArgList == ext("strings.Fields", match[2]) && result.Name == match[1] && result.Raw == match[0]
+//@   ensures !mem(result.ArgList, "")
